@@ -477,9 +477,7 @@ def write_across_reconnect(r):
                 # before anything reconnects (a connect overtaking it is C16's recorded finding, not this scenario)
                 import yowsup.stacks.yowstack as ys
                 rig.net.onDisconnected()
-                q = ys.YowStack._YowStack__detachedQueue
-                while q.qsize():
-                    q.get(False)()
+                core.drain_detached(execute=True)
             b = threading.Thread(target=connection_lost)
             b.daemon = True
             b.start()
@@ -583,9 +581,7 @@ def write_raises_then_reconnect(r):
                 # the dead connection is noticed and a new one is made
                 d1.open = False
                 rig.net.onDisconnected()
-                q = ys.YowStack._YowStack__detachedQueue
-                while q.qsize():
-                    q.get(False)()
+                core.drain_detached(execute=True)
                 srv2 = NoiseServer(static=srv1.static)
                 rig.server = srv2
                 try:
